@@ -155,6 +155,7 @@ ROUND8 = {
  "C07": "Protocol messages without a message key; encrypted messages whose payload only has fields newer than the schema.",
  "C09": "Lists of 255..257 members through the real codec; media messages of an unlisted kind.",
  "C10": "Two replies in one process naming the same quoted stanza id.",
+ "C11": "The receiving thread (a server ping answered from inside the delivery, the noise layer's own lock traced) among the threads; a stuck-state query over per-thread cut points (lock order of receive and send paths).",
  "C12": "The keep-alive's timeout as a fault (recording lock in the iq layer); the blocking socket dispatcher in the reconnect cases.",
  "C13": "Confirmed uploads with sparse, unordered ids; a store file whose records an older installation stored as text.",
  "C14": "Confirmation recorded through the manager with debug logging on; a store file with the prekeys table of the released version.",
